@@ -249,6 +249,14 @@ theorem tied_prefix {sc : List FS.Ev} {toks : List Tok} {e : Ending} (h : Tied s
   exact ⟨more ++ (FS.run FS.frameDec (FS.run FS.frameDec (.hdr []) (FS.evBytes taken)).1
     (if eos then [] else FS.evBytes (FS.upToFin rest))).2, by simp⟩
 
+/-- the blocks the reference automaton finds in the wire bytes are acceptable in their positions
+    (first HEADERS = head, second = trailers) ⇒ so are those of a frame sequence tied to the script -/
+theorem tied_hdrsOk (H : Hdr) {sc : List FS.Ev} {toks : List Tok} {e : Ending} (h : Tied sc toks e)
+    (hH : HdrsOkK H .head (kindsOf (FS.run FS.frameDec (.hdr []) (FS.evBytes (FS.upToFin sc))).2)) :
+    HdrsOk H toks := by
+  obtain ⟨more, hm⟩ := tied_prefix h
+  exact hdrsOk_of_ref H h.2 hm.symm hH
+
 /-- for every script there is a frame sequence `toks` with ending `e` such that the `FrameStream`
     model over the script is related to the token source over `toks`/`e`, the sequence is well
     formed, short enough for the fuel of `documentedChunks`, and tied to the bytes -/
